@@ -5,7 +5,9 @@ from vlib import core, oracles
 from vlib.grammar import recase
 
 PREFIX = ['', ' ', '\n', '\t\n ', '/* c */', '/* c */ ', '-- c\n', '--c\n\n  ', '/* a */ -- b\n /* c */\n', '# c\n',
-          '/*+ h */ ', '\r\n', '/**/']
+          '/*+ h */ ', '\r\n', '/**/',
+          # whitespace beyond blank/tab/line ends (what \\s and str.isspace() accept)
+          '\xa0', '\u2028', '\x1c', '\u3000', '\x85 ', '\x0b', '\x0c\n']
 CASES = ['lower', 'upper', 'title', 'alt']
 # continuation after the head keyword: (text, kind) - kind names the cube for known findings
 CONT = [(' x', 'blank+name'), (' 1', 'blank+number'), (' *', 'blank+star'), (' (a)', 'blank+paren'),
@@ -24,7 +26,7 @@ NON_HEADS = ['foo', '1', '(select 1)', 'begin', 'grant', 'set', 'show', 'explain
 DML = ['select', 'insert', 'update', 'delete', 'merge']
 # what may stand between the CTE definitions and the statement keyword
 GAPS = [' ', '\n', ' /* a */ ', ' /* a */ /* b */ ', ' -- a\n', ' /* a */ -- b\n ', ' /* a */\n/* b */\n', '/* a */', ' /*+ h */ ',
-        ' -- a\n -- b\n']
+        ' -- a\n -- b\n', '']
 
 
 def heads():
@@ -70,9 +72,12 @@ def cases(tier):
         yield {'text': pre, 'expect': None, 'cube': 'head=empty'}   # no statement or UNKNOWN
     # WITH statements
     ctes = ['c as (select 1)', 'c(a, b) as (select 1, 2)', 'c as (select x from (select 1 x) y where x in (1, 2))',
-            '"q r" as (select 1)', 'c as not materialized (select 1)']
+            '"q r" as (select 1)', '`q` as (select 1)', '"q"as(select 1)', '[q] as (select 1)', 'c as(select 1)',
+            'c as not materialized (select 1)']
+    # what stands between WITH [RECURSIVE] and the first CTE name ('' only before a quoted name)
+    joins = [' ', '', '\n', '\t', '/* c */', ' /* c */ ', ' -- c\n']
     for n in (1, 2, 3):
-        for combo in itertools.product(ctes[:4] if n < 3 else ctes[:2], repeat=n):
+        for combo in itertools.product(ctes[:8] if n == 1 else ctes[:5] if n == 2 else ctes[:2], repeat=n):
             for rec in ('', ' recursive'):
                 for sep in (', ', ',', ',\n'):
                     for body in DML + ['foo', '(select 1)', '']:
@@ -84,10 +89,15 @@ def cases(tier):
                                         'foo': ' bar', '(select 1)': '', '': ''}[body]
                                 for gap in GAPS if (n == 1 and cs == 'lower' and pre in ('', ' ')) else GAPS[:1]:
                                     g2 = gap if body else ''
-                                    text = pre + w + ' ' + sep.join(combo) + g2 + recase(body, cs) + tail
-                                    exp = body.upper() if body in DML else 'UNKNOWN'
-                                    yield {'text': text, 'expect': exp,
-                                           'cube': f'head=with|ctes={n}|rec={"yes" if rec else "no"}|body={body or "none"}|gap={GAPS.index(gap)}'}
+                                    for j in (joins if (n == 1 and pre == '') or (n == 2 and cs == 'lower' and pre == '') else joins[:1]):
+                                        if j == '' and combo[0][0] not in '"`[':
+                                            continue
+                                        if j != ' ' and gap != GAPS[0] and gap != '':
+                                            continue
+                                        text = pre + w + j + sep.join(combo) + g2 + recase(body, cs) + tail
+                                        exp = body.upper() if body in DML else 'UNKNOWN'
+                                        yield {'text': text, 'expect': exp,
+                                               'cube': f'head=with|ctes={n}|rec={"yes" if rec else "no"}|body={body or "none"}|gap={GAPS.index(gap)}|join={joins.index(j)}'}
                                 continue
                                 text = pre + w + ' ' + sep.join(combo) + (' ' if body else '') + recase(body, cs) + tail
                                 exp = body.upper() if body in DML else 'UNKNOWN'
